@@ -148,7 +148,24 @@ static void p0_run(uint64_t idx, vh_rng_t * rng) {
     /* B after A */
     v = vh_ctx_new(cmds, bufsize, 64, 1024); v->sigs = sigs; v->nsigs = NSIG;
     for (i = 0; i < na; i++) { if (vh_chance(rng, 1, 3)) { size_t h = A[i].len / 2; vh_input(v, A[i].p, h); vh_input(v, A[i].p + h, A[i].len - h); } else vh_input(v, A[i].p, A[i].len); }
-    if (overrun) { char * big = (char *) malloc(bufsize + 10); memset(big, 'A', bufsize + 10); vh_input(v, "T1 \"pend", 8); vh_input(v, big, bufsize + 10); free(big); }
+    if (overrun) {
+        /* what is pending when the overrunning chunk arrives: an unfinished string, or complete ';'-terminated units of a message whose
+         * terminator has not arrived yet (delivered in one or two calls) */
+        static vh_buf_t P; int dummy = 0; size_t fill;
+        vh_buf_reset(&P);
+        if (vh_chance(rng, 1, 2)) vh_buf_add(&P, "T1 \"pend", 8);
+        else {
+            gen_msg(rng, &P, &dummy);
+            while (P.len && (P.p[P.len - 1] == '\n' || P.p[P.len - 1] == '\r')) P.len--;
+            vh_buf_addc(&P, ';');
+            if (vh_chance(rng, 1, 2)) { gen_msg(rng, &P, &dummy); while (P.len && (P.p[P.len - 1] == '\n' || P.p[P.len - 1] == '\r')) P.len--; vh_buf_addc(&P, ';'); }
+            if (P.len + 2 >= bufsize) { vh_buf_reset(&P); vh_buf_add(&P, "Q1?;Q1?;", 8); }
+            vh_count("A.overrun_with_pending_complete_units", 1);
+        }
+        if (P.len > 3 && vh_chance(rng, 1, 2)) { size_t h = 1 + vh_below(rng, (uint32_t) P.len - 1); vh_input(v, P.p, h); vh_input(v, P.p + h, P.len - h); } else vh_input(v, P.p, P.len);
+        fill = bufsize + 10;
+        { char * big = (char *) malloc(fill); memset(big, 'A', fill); vh_input(v, big, fill); free(big); }
+    }
     if (zero_flush) vh_input(v, NULL, 0);
     vh_ctx_clear_capture(v);
     vh_input(v, B.p, B.len);
@@ -243,6 +260,6 @@ int main(int argc, char ** argv) {
     static const vh_phase_t phases[] = { { "pairs", p0_count, p0_run }, { "units within one message", p1_count, p1_run } };
     vh_require("pairs.direct_line_parse_same_length"); vh_require("unit.X_raises_errors"); vh_require("unit.block_data_without_header_after_unfinished_block"); vh_require("unit.both_units_raise_errors");
     vh_require("A.sequence_of_messages"); vh_require("A.raises_errors"); vh_require("A.leaves_block_unfinished_or_overlong"); vh_require("A.ends_with_compound_path");
-    vh_require("A.overrun_with_pending_bytes"); vh_require("B.uses_relative_header"); vh_require("B.responds"); vh_require("A.responds"); vh_require("B.block_data_without_header_after_unfinished_block");
+    vh_require("A.overrun_with_pending_bytes"); vh_require("A.overrun_with_pending_complete_units"); vh_require("B.uses_relative_header"); vh_require("B.responds"); vh_require("A.responds"); vh_require("B.block_data_without_header_after_unfinished_block");
     return vh_main(argc, argv, "C09", phases, 2);
 }
